@@ -193,6 +193,12 @@ func ApplyReal(d *db.DB, caller db.Caller, op Op) (r Result) {
 		}
 		if sv != nil {
 			r.Version, r.Bytes, r.HasVal = uint32(sv.Version), string(sv.Value), true
+			// the caller owns what it was given and does with it what callers do (wipe it after use):
+			// that must never reach what the database holds
+			for i := range sv.Value {
+				sv.Value[i] ^= 0xA5
+			}
+			sv.Version = 0xDEAD
 		}
 		return r
 	}
@@ -210,12 +216,24 @@ func ApplyReal(d *db.DB, caller db.Caller, op Op) (r Result) {
 		if l != nil || err == nil {
 			r.Meta = realdb.ListString(l)
 		}
+		for _, in := range l {
+			if in != nil {
+				for i := range in.Versions {
+					in.Versions[i] = 0xBAD
+				}
+				in.ActiveVersion, in.Name = 0xBAD, "scribbled"
+			}
+		}
 		return r
 	case Info:
 		in, err := d.Info(caller, op.Name)
 		r := cls(err)
 		if in != nil {
 			r.Meta = realdb.InfoString(in)
+			for i := range in.Versions { // (the metadata is the caller's too)
+				in.Versions[i] = 0xBAD
+			}
+			in.ActiveVersion, in.Name = 0xBAD, "scribbled"
 		}
 		return r
 	case Get:
@@ -225,7 +243,13 @@ func ApplyReal(d *db.DB, caller db.Caller, op Op) (r Result) {
 	case GetCond:
 		return val(d.GetConditional(caller, op.Name, api.SecretVersion(op.Version)))
 	case Put:
-		v, err := d.Put(caller, op.Name, op.Value)
+		// likewise the buffer handed to Put is the caller's, and is reused right after the call
+		buf := append(make([]byte, 0, len(op.Value)+8), op.Value...)
+		v, err := d.Put(caller, op.Name, buf)
+		for i := range buf {
+			buf[i] ^= 0x5A
+		}
+		copy(buf[len(buf):cap(buf)], "scribble")
 		r := cls(err)
 		r.Version = uint32(v)
 		return r
